@@ -283,7 +283,14 @@ pub fn gen_step(args: &Args) {
             state.push(Value::Object(m));
         }
         let draws = gen_draws(&mut r, &t);
-        out.line(&json!({"id": id, "tree": t, "method": meth, "par": par, "t": it, "state": state, "draws": draws}));
+        // payoff scale class: CFR is positively homogeneous in the payoffs, so the same case with all
+        // payoffs and regrets multiplied by a power of two (exact in binary floating point) must give the
+        // same strategies and scaled regrets / bounds - for magnitudes far from one too.  A finite non-zero
+        // softmax weight is not scale invariant and is only used at scale one.
+        let w = &par["w"];
+        let invariant = w[0] != "q" || w[1] == 0;
+        let scale: i64 = if !invariant { 0 } else { [0, -70, 0, 60][(id % 4) as usize] };
+        out.line(&json!({"id": id, "tree": t, "method": meth, "par": par, "t": it, "state": state, "draws": draws, "scale": scale}));
     }
 }
 
@@ -331,12 +338,23 @@ fn run_step(t: &Tree, case: &Value, threads: usize) -> Result<StepRun, String> {
     let t2 = t.clone();
     let case = case.clone();
     util::catch(move || {
+        let sigma = 2f64.powi(case["scale"].as_i64().unwrap_or(0) as i32);
+        let mut t2 = t2;
+        if sigma != 1.0 {
+            t2.map_pay(&mut |p| tree::Num::F(p.f() * sigma));
+        }
         let game = tree::build(&t2).map_err(|e| format!("from_root: {e:?}"))?;
         let dump = game.verif_dump();
         let meth = case["method"].as_str().unwrap();
         let it = case["t"].as_u64().unwrap();
         verif::reset();
-        verif::set_inject(Some(state_of(&case["state"], &dump)));
+        let mut inj = state_of(&case["state"], &dump);
+        for side in inj.iter_mut() {
+            for info in side.iter_mut() {
+                info.cum_regret.iter_mut().for_each(|x| *x *= sigma);
+            }
+        }
+        verif::set_inject(Some(inj));
         verif::set_first_it(it);
         verif::set_draw_table(Some(draw_table(&[case["draws"].clone()], meth, &t2, &dump)));
         verif::set_draw_seed(Some(12345));
@@ -373,6 +391,9 @@ pub fn replay_step(args: &Args) {
         let mut bad = Vec::new();
         let mut kinds: Vec<String> = Vec::new();
         let mut poisoned = false;
+        // quantities in payoff units (regrets, bounds) are compared relative to the case's payoff scale
+        let sigma = 2f64.powi(case["scale"].as_i64().unwrap_or(0) as i32);
+        let unit_close = |x: f64, want: f64| -> bool { util::close(x / sigma, want, tol) };
         for threads in [1usize, 2] {
             let run = match run_step(&t, case, threads) {
                 Ok(r) => r,
@@ -401,7 +422,7 @@ pub fn replay_step(args: &Args) {
                         continue;
                     }
                     let want_r: Vec<f64> = e["r"].as_array().unwrap().iter().map(|x| num(x, tt, tavg, par)).collect();
-                    if !vec_close(&got.cum_regret, &want_r, tol) {
+                    if !(got.cum_regret.len() == want_r.len() && got.cum_regret.iter().zip(want_r.iter()).all(|(x, y)| unit_close(*x, *y))) {
                         bad.push(json!({"class": "regret", "what": "cumulative regret after the iteration differs", "threads": threads,
                             "player": pl + 1, "infoset": info.infoset, "observed": got.cum_regret, "specified": want_r}));
                     }
@@ -449,7 +470,7 @@ pub fn replay_step(args: &Args) {
                     want_bounds[pl] += num(&e["bound"], tt, tavg, par);
                     at += k;
                 }
-                if !poisoned && !util::close(run.bounds[pl], want_bounds[pl], tol) {
+                if !poisoned && !unit_close(run.bounds[pl], want_bounds[pl]) {
                     bad.push(json!({"class": "bound", "what": "reported bound differs", "threads": threads, "player": pl + 1,
                         "observed": run.bounds[pl], "specified": want_bounds[pl]}));
                 }
